@@ -13,9 +13,10 @@
    ListWorkloads(app, entry, node) reads the keys under filepath.Join("/deploy", app, entry, node) + "/"
    (etcd: key prefix; redis: SCAN with the glob pattern prefix + "*"), GetDeployStatus(app, entry)
    counts the keys under filepath.Join("/deploy", app, entry) + "/" by their second-to-last element.
-   The /deploy, /processing and /status key spaces are modelled separately; this is exact as long
-   as no key escapes its root, i.e. no name is ".." (such names are rejected by validation; the
-   harness exercises them in the /deploy space only).  No proofs in this file. *)
+   Deploy and processing keys live in ONE key space (as in the stores), so names like ".." that
+   let a key escape its root are modelled exactly as long as they stay away from the stores' other
+   roots (/workloads, /node, /pod, /status ...; the harness alphabets do).  Status keys are only
+   written in scenarios where every name is accepted.  No proofs in this file. *)
 From Coq Require Import List Bool Arith NArith String Ascii.
 From Verif Require Import Base.GoStr.
 Import ListNotations.
@@ -113,38 +114,24 @@ Fixpoint glob (p s : bytes) : bool :=
       else match s with x :: s' => Ascii.eqb c x && glob p' s' | [] => false end
   end.
 
+(* store/redis escapeGlob (after the repair `fix: redis store escapes glob metacharacters`):
+   backslash, '*', '?' and '[' are preceded by a backslash *)
+Definition is_meta (c : ascii) : bool :=
+  Ascii.eqb c star || Ascii.eqb c qmark || Ascii.eqb c lbracket || Ascii.eqb c backslash.
+Fixpoint escape_glob (s : bytes) : bytes :=
+  match s with
+  | [] => []
+  | c :: t => if is_meta c then backslash :: c :: escape_glob t else c :: escape_glob t
+  end.
+
 Inductive backend := Etcd | Redis.
 Definition under (b : backend) (prefix key : bytes) : bool :=
   match b with
   | Etcd => has_prefix prefix key
-  | Redis => glob (prefix ++ [star]) key
+  | Redis => glob (escape_glob prefix ++ [star]) key
   end.
-
-(* ---- the key space ---- *)
-Definition kspace := list (bytes * wl).        (* deploy key -> workload *)
-
-Fixpoint has_key (k : bytes) (s : kspace) : bool :=
-  match s with [] => false | (k', _) :: t => bytes_eqb k k' || has_key k t end.
-Fixpoint has_id (id : bytes) (s : kspace) : bool :=
-  match s with [] => false | (_, w) :: t => bytes_eqb id (w_id w) || has_id id t end.
-
-(* AddWorkload: BatchCreate of /workloads/ID, /node/N:workloads/ID and the deploy key: all must be new *)
-Definition add_workload (s : kspace) (w : wl) : kspace * bool :=
-  match deploy_key w with
-  | None => (s, false)
-  | Some k => if has_key k s || has_id (w_id w) s then (s, false) else (s ++ [(k, w)], true)
-  end.
-
-Definition list_workloads (b : backend) (s : kspace) (app entry node : bytes) : list bytes :=
-  let lk := list_key app entry node in     (* computed once *)
-  map (fun kw => w_id (snd kw)) (filter (fun kw => under b lk (fst kw)) s).
-
-(* doGetDeployStatus: parts := Split(key, "/"); nodename := parts[len(parts)-2] *)
-Definition key_node (k : bytes) : bytes :=
-  let parts := split_on slash k in nth (List.length parts - 2) parts [].
-Definition status_nodes (b : backend) (s : kspace) (app entry : bytes) : list bytes :=
-  let sk := status_key app entry in
-  map (fun kw => key_node (fst kw)) (filter (fun kw => under b sk (fst kw)) s).
+(* the redis store before the repair: the names went into the pattern unescaped *)
+Definition under_redis_old (prefix key : bytes) : bool := glob (prefix ++ [star]) key.
 
 (* ---- processing markers (store/*/processing.go): deployments in flight ----
    CreateProcessing files a counter under Join("/processing", app, entry, node, ident);
@@ -155,15 +142,55 @@ Record proc := mkProc { p_app : bytes; p_entry : bytes; p_node : bytes; p_ident 
 Definition proc_key (p : proc) : bytes :=
   join_path [processing_prefix; p_app p; p_entry p; p_node p; p_ident p].
 Definition proc_filter_key (app entry : bytes) : bytes := join_path [processing_prefix; app; entry] ++ [slash].
-Definition pspace := list (bytes * proc).
-Fixpoint has_pkey (k : bytes) (s : pspace) : bool :=
-  match s with [] => false | (k', _) :: t => bytes_eqb k k' || has_pkey k t end.
-(* Create: the key must be new *)
-Definition add_proc (s : pspace) (p : proc) : pspace * bool :=
-  let k := proc_key p in if has_pkey k s then (s, false) else (s ++ [(k, p)], true).
-Definition proc_counts (b : backend) (s : pspace) (app entry : bytes) : list (bytes * N) :=
+
+(* ---- ONE key space: every key lives in the same etcd / redis namespace, so a name like ".."
+   that lets a key escape its root can make deploy and processing keys meet ---- *)
+Inductive item := IW (w : wl) | IP (p : proc).
+Definition kspace := list (bytes * item).
+
+Fixpoint has_key (k : bytes) (s : kspace) : bool :=
+  match s with [] => false | (k', _) :: t => bytes_eqb k k' || has_key k t end.
+Fixpoint has_id (id : bytes) (s : kspace) : bool :=
+  match s with
+  | [] => false
+  | (_, IW w) :: t => bytes_eqb id (w_id w) || has_id id t
+  | (_, IP _) :: t => has_id id t
+  end.
+
+(* AddWorkload: BatchCreate of /workloads/ID, /node/N:workloads/ID and the deploy key: all must be new *)
+Definition add_workload (s : kspace) (w : wl) : kspace * bool :=
+  match deploy_key w with
+  | None => (s, false)
+  | Some k => if has_key k s || has_id (w_id w) s then (s, false) else (s ++ [(k, IW w)], true)
+  end.
+(* CreateProcessing: Create, the key must be new *)
+Definition add_proc (s : kspace) (p : proc) : kspace * bool :=
+  let k := proc_key p in if has_key k s then (s, false) else (s ++ [(k, IP p)], true).
+
+(* ListWorkloads unmarshals every value under the prefix as a workload: a processing counter there
+   ("2") makes the call fail.  None = error. *)
+Fixpoint ids_of (l : kspace) : option (list bytes) :=
+  match l with
+  | [] => Some []
+  | (_, IW w) :: t => match ids_of t with Some r => Some (w_id w :: r) | None => None end
+  | (_, IP _) :: _ => None
+  end.
+Definition list_workloads (b : backend) (s : kspace) (app entry node : bytes) : option (list bytes) :=
+  let lk := list_key app entry node in     (* computed once *)
+  ids_of (filter (fun kw => under b lk (fst kw)) s).
+
+(* doGetDeployStatus reads keys only: parts := Split(key, "/"); nodename := parts[len(parts)-2] *)
+Definition key_node (k : bytes) : bytes :=
+  let parts := split_on slash k in nth (List.length parts - 2) parts [].
+Definition status_nodes (b : backend) (s : kspace) (app entry : bytes) : list bytes :=
+  let sk := status_key app entry in
+  map (fun kw => key_node (fst kw)) (filter (fun kw => under b sk (fst kw)) s).
+
+(* doLoadProcessing: a value that is not a number (a workload) is logged and skipped *)
+Definition proc_counts (b : backend) (s : kspace) (app entry : bytes) : list (bytes * N) :=
   let pk := proc_filter_key app entry in
-  map (fun kp => (key_node (fst kp), p_count (snd kp))) (filter (fun kp => under b pk (fst kp)) s).
+  flat_map (fun kp => match snd kp with IP p => [(key_node (fst kp), p_count p)] | IW _ => [] end)
+           (filter (fun kp => under b pk (fst kp)) s).
 
 (* node -> count maps as sorted association lists *)
 Fixpoint add_count (k : bytes) (n : N) (l : list (bytes * N)) : list (bytes * N) :=
@@ -178,8 +205,8 @@ Definition agg (l : list (bytes * N)) : list (bytes * N) :=
   fold_right (fun kn acc => add_count (fst kn) (snd kn) acc) [] l.
 
 (* GetDeployStatus: deployed workloads count 1 each, plus the processing counters *)
-Definition deploy_status (b : backend) (ks : kspace) (ps : pspace) (app entry : bytes) : list (bytes * N) :=
-  agg (map (fun n => (n, 1%N)) (status_nodes b ks app entry) ++ proc_counts b ps app entry).
+Definition deploy_status (b : backend) (s : kspace) (app entry : bytes) : list (bytes * N) :=
+  agg (map (fun n => (n, 1%N)) (status_nodes b s app entry) ++ proc_counts b s app entry).
 
 (* ================= correspondence cases: the stores ================= *)
 Record addc := mkAdd { a_app : string; a_entry : string; a_ident : string; a_node : string; a_id : string;
@@ -200,7 +227,7 @@ Definition proc_of (p : procc) : proc :=
 
 Record case := mkCase { c_backend : backend; c_adds : list addc; c_procs : list procc; c_queries : list query }.
 
-Fixpoint build_procs (s : pspace) (ps : list procc) : pspace * list bool :=
+Fixpoint build_procs (s : kspace) (ps : list procc) : kspace * list bool :=
   match ps with
   | [] => (s, [])
   | p :: t => let '(s', okb) := add_proc s (proc_of p) in
@@ -249,20 +276,23 @@ Definition accepted_add (a : addc) : bool :=
 Definition accepted_or_empty (valid : bytes -> bool) (n : string) : bool :=
   match s2l n with [] => true | l => valid l end.
 
-Definition query_agrees (b : backend) (s : kspace) (ps : pspace) (q : query) : bool :=
+Definition query_agrees (b : backend) (s : kspace) (q : query) : bool :=
   match q with
   | QList app entry node acc obs =>
       Bool.eqb acc (accepted_or_empty valid_app app && accepted_or_empty valid_entry entry && accepted_or_empty valid_node node)
       && match obs with
-         | Some ids => bytes_list_eqb (sort_bytes (list_workloads b s (s2l app) (s2l entry) (s2l node))) (map s2l ids)
-         | None => false
+         | Some ids => match list_workloads b s (s2l app) (s2l entry) (s2l node) with
+                       | Some l => bytes_list_eqb (sort_bytes l) (map s2l ids)
+                       | None => false
+                       end
+         | None => match list_workloads b s (s2l app) (s2l entry) (s2l node) with None => true | Some _ => false end
          end
   | QStatus app entry acc obs =>
       Bool.eqb acc (valid_app (s2l app) && valid_entry (s2l entry))
-      && counts_eqb (deploy_status b s ps (s2l app) (s2l entry)) obs
+      && counts_eqb (deploy_status b s (s2l app) (s2l entry)) obs
   | QStream app entry node acc obs =>
       Bool.eqb acc (accepted_or_empty valid_app app && accepted_or_empty valid_entry entry && accepted_or_empty valid_node node)
-      && bytes_list_eqb (sort_bytes (stream_ids (map snd s) (s2l app) (s2l entry) (s2l node))) (map s2l obs)
+      && bytes_list_eqb (sort_bytes (stream_ids (flat_map (fun kw => match snd kw with IW w => [w] | IP _ => [] end) s) (s2l app) (s2l entry) (s2l node))) (map s2l obs)
   end.
 
 Fixpoint bools_eqb (a b : list bool) : bool :=
@@ -276,13 +306,13 @@ Definition accepted_proc (p : procc) : bool :=
   valid_app (s2l (pc_app p)) && valid_entry (s2l (pc_entry p)) && valid_node (s2l (pc_node p)).
 
 Definition agree (c : case) : bool :=
-  let '(s, oks) := build [] (c_adds c) in
-  let '(ps, poks) := build_procs [] (c_procs c) in
+  let '(s0, oks) := build [] (c_adds c) in
+  let '(s, poks) := build_procs s0 (c_procs c) in   (* markers are created after the workloads, in the same key space *)
   bools_eqb oks (map a_ok (c_adds c))
   && bools_eqb poks (map pc_ok (c_procs c))
   && forallb (fun a => Bool.eqb (a_acc a) (accepted_add a)) (c_adds c)
   && forallb (fun p => Bool.eqb (pc_acc p) (accepted_proc p)) (c_procs c)
-  && forallb (query_agrees (c_backend c) s ps) (c_queries c).
+  && forallb (query_agrees (c_backend c) s) (c_queries c).
 
 (* ---- boolean reflection of the property on the implementation's answers.
    It uses the names only (no keys, no cleaning, no prefixes): a query must return exactly the
